@@ -666,6 +666,7 @@ def check(facts, rep, tier, cfg):
     rep.rule("C01.S7", "who-may: the functions that touch the critical resources behind this property are those of the reference tree (flow table, closed flag, per-stream / datagram / outbound queues, last-pong timestamp, client id maps, shared TLS identity)")
     import whomay
     whomay.check(facts, rep, "C01.S7", "C01")
+    whomay.check_new_statics(facts, rep, "C01.S7", "C01")
 
 
 def norm_ty_is_sockaddr(b, l):
